@@ -3,7 +3,6 @@ package props
 import (
 	"fmt"
 	"os"
-	"time"
 
 	"verif/core"
 )
@@ -11,19 +10,12 @@ import (
 func init() {
 	core.Register(&core.Driver{Prop: "DBG", Serial: true, Run: func(c *core.Ctx) {
 		w := os.Stderr
-		cw := c11Open([]string{"l", "r"}, map[string][]int{"l": {2}, "r": {1, 2}}, c11Stats{Name: "never"})
-		qs := c11Queries([]string{"l", "r"}, false)
-		fmt.Fprintln(w, "queries", len(qs))
-		t0 := time.Now()
-		nv := 0
-		for i, q := range qs[:200] {
-			t1 := time.Now()
-			pfs, _, _ := cw.db.PlanVariants(q.SQL())
-			nv += len(pfs)
-			if i < 5 || time.Since(t1) > 100*time.Millisecond {
-				fmt.Fprintln(w, i, q.SQL(), len(pfs), time.Since(t1))
-			}
+		for _, s := range c12Scenarios(false) {
+			sc := s.build(2)
+			sc.MaxEx = 4000
+			c.Res = core.NewResult()
+			core.ExploreSchedWhole(c, sc)
+			fmt.Fprintln(w, s.Name, c.Res.States, c.Res.Transitions, c.Res.Extra)
 		}
-		fmt.Fprintln(w, "200 queries planned:", time.Since(t0), "variants", nv)
 	}})
 }
